@@ -59,6 +59,7 @@ def dataOut : Except (DataErr String) (List (String × Json)) → Json
   | .error (.parse k) => err "parse" [("k", Json.str k)]
   | .error (.exceed k) => err "exceed" [("k", Json.str k)]
   | .error .collected => err "collected"
+  | .error .dependencies => err "dependencies"
 
 def kindOf (j : Json) : SeqKind :=
   match str! j with
@@ -119,11 +120,19 @@ def handleMap (j : Json) : Json :=
     (kvs.filter fun kv => !mapExcluded pk pv kp vp kv)
   Json.mkObj [("model", mapOut model), ("spec", mapOut spec)]
 
-def fieldOf (j : Json) : Field String Json :=
+/-- `Field(required=…)`: false / true / a string of one-letter modes -/
+def reqOf (j : Json) : Req String :=
+  match j with
+  | .bool true => .yes
+  | .str ms => .modes (ms.toList.map fun c => String.singleton c)
+  | _ => .no
+
+def declOf (j : Json) : FieldDecl String String Json :=
   { name := str! (fld j "name")
-    required := bool! (fld j "required")
+    req := reqOf (fld j "req")
     default := if bool! (fld j "has_default") then some (fld j "default") else none
     onError := optPolOf (fld j "on_error")
+    deps := (arr! (fld j "deps")).map str!
     parse := parserOf (fld j "table") }
 
 def additionOf (j : Json) : Addition Json :=
@@ -147,11 +156,14 @@ def andThen (a : Except (DataErr String) (List (String × Json))) (b : Except (D
 
 def handleSchema (j : Json) : Json :=
   let inv := polOf (fld j "inv")
-  let fields := (arr! (fld j "fields")).map fieldOf
+  let mode : Option String := if isNull (fld j "mode") then none else some (str! (fld j "mode"))
+  -- `is_required(options)` is resolved in the model (Req.holds), from the declaration and Options.mode
+  let fields := (arr! (fld j "fields")).map fun f => (declOf f).resolve mode
   let a := additionOf j
   let data := dataOf (fld j "data")
-  let model := if bool! (fld j "dfs") then parseDataDF inv fields a data else parseDataFF inv fields a data
-  -- C11_fields_ff_general (and its data-first counterpart): strict parse of the filtered data
+  let fix := !(bool! (fld j "legacy_deps"))
+  let model := if bool! (fld j "dfs") then parseDataDFG fix inv fields a data else parseDataFFG fix inv fields a data
+  -- C11_fields_ff_general / C11_fields_df_general: strict parse of the filtered data
   let fdata := data.filter (fun kv => !(fieldExcluded inv fields kv || additionExcluded inv fields a kv))
   let sfields := fields.map (Field.strictified inv)
   let spec := if bool! (fld j "dfs") then parseDataDF .throw sfields (a.strictified inv) fdata
@@ -171,15 +183,21 @@ def handleFunc (j : Json) : Json :=
   let args := arr! (fld j "args")
   let a := additionOf j
   let kwargs := dataOf (fld j "kwargs")
-  let margs := parseVarArgs pitems pt 0 args
-  let mkw := parseDataFF (κ := String) inv [] a kwargs
+  let params := (arr! (fld j "params")).map fun f => (declOf f).resolve (none : Option String)
+  let margs := parseCallArgs inv pitems params pt args
+  let mkw := parseDataFF (κ := String) (α := Json) inv [] a kwargs
+  let vargs := args.drop params.length
   let sargs := match pt with
     | some p => (match pitems with
-        | .exclude => seqOut (parseSeq .throw p (removeOffenders p args))
-        | .preserve => putBackOut p args (parseSeq .throw p (removeOffenders p args))
-        | .throw => seqOut (parseSeq .throw p args))
-    | none => ok (jarr args)
-  Json.mkObj [("model", Json.mkObj [("args", seqOut margs), ("kwargs", dataOut mkw)]),
+        | .exclude => seqOut (parseSeq .throw p (removeOffenders p vargs))
+        | .preserve => putBackOut p vargs (parseSeq .throw p (removeOffenders p vargs))
+        | .throw => seqOut (parseSeq .throw p vargs))
+    | none => ok (jarr vargs)
+  let callOut : Except SeqErr (List Json × List Json) → Json
+    | .ok (l, r) => Json.mkObj [("ok", jarr r), ("params", jarr l)]
+    | .error (.item i) => err "item" [("i", Json.num i)]
+    | .error _ => err "other"
+  Json.mkObj [("model", Json.mkObj [("args", callOut margs), ("kwargs", dataOut mkw)]),
               ("spec", Json.mkObj [("args", sargs)])]
 
 def handle (j : Json) : Json :=
